@@ -706,6 +706,38 @@ def new_bytesio(ex, st, args, kwargs, node):
     return [(st, b)]
 
 
+REST = fun("bytes_from", BYTES, I, BYTES)          # b[p:] -- what read() returns from position p
+
+
+def rest_facts(c, p):
+    """Defining facts of b[p:] used by proofs AND counterexamples (quantifier free, instantiated at the one application):
+    the whole buffer from 0, nothing from the end on, len(b) - p bytes in between."""
+    r = REST(c, p)
+    n = BLEN(c)
+    return z3.And(z3.Implies(p <= 0, r == c), z3.Implies(p >= n, r == EMPTY), BLEN(r) == z3.If(p >= n, 0, n - z3.If(p < 0, 0, p)), BLEN(EMPTY) == 0)
+
+
+def m_bio_read(ex, st, obj, args, kwargs, node):
+    """BytesIO.read([size]) -- ASSUMED: without a size (None / negative) the bytes from the CURRENT position to the end; the stream is
+    left at the end.  A stream that was not rewound yields a suffix, not the payload.  read(n): some bytes (as before)."""
+    if kwargs or len(args) > 1 or (args and not (isinstance(args[0], VNoneT) or (isinstance(args[0], VInt) and z3.is_int_value(ops.int_term(args[0]))
+                                                                                 and ops.int_term(args[0]).as_long() < 0))):
+        return common.m_read(ex, st, obj, args, kwargs, node)
+    pos = common.bytesio_pos(st, obj)
+    c = CONTENT(obj.t)
+    st.assume(BLEN(c) >= 0)
+    st.assume(rest_facts(c, pos))
+    out = VExt("Bytes", REST(c, pos))
+    st.ghost[common.pos_key(obj)] = z3.If(pos >= BLEN(c), pos, BLEN(c))
+    return [(st, out)]
+
+
+def m_bio_getvalue(ex, st, obj, args, kwargs, node):
+    """BytesIO.getvalue() -- ASSUMED: the whole buffer, position untouched."""
+    st.assume(BLEN(CONTENT(obj.t)) >= 0)
+    return [(st, VExt("Bytes", CONTENT(obj.t)))]
+
+
 def install_pydict(reg):
     """dict values of well-typed fields (List[Dict[str, Any]]): keys()/values()/items()/get() are total."""
     D = ext_sort("PyDict")
@@ -733,6 +765,8 @@ def install(reg):
     register_refuter()
     install_pydict(reg)
     common.install_bytesio(reg)
+    reg.method_models[("BytesIO", "read")] = m_bio_read              # pack-local refinement of common.m_read (content + position)
+    reg.method_models[("BytesIO", "getvalue")] = m_bio_getvalue
     reg.ext_models["io.BytesIO"] = new_bytesio
     reg.ext_models[("new", "BytesIO")] = new_bytesio
     reg.ext_models[("new", "io.BytesIO")] = new_bytesio
